@@ -309,16 +309,23 @@ func (m Message) Bytes() []byte {
 	return s.BytesOrPanic()
 }
 
-func (rr RR) Bytes() []byte {
-	s := cryptobyte.NewBuilder(nil)
-	if len(rr.Name) > 0 {
-		for _, p := range strings.Split(rr.Name, ".") {
+// addName appends the uncompressed wire form of name, which may be written
+// with or without the trailing dot. The root name has no labels, just the
+// terminating zero.
+func addName(s *cryptobyte.Builder, name string) {
+	if name = strings.TrimSuffix(name, "."); name != "" {
+		for _, p := range strings.Split(name, ".") {
 			s.AddUint8LengthPrefixed(func(s *cryptobyte.Builder) {
 				s.AddBytes([]byte(p))
 			})
 		}
 	}
 	s.AddUint8(0)
+}
+
+func (rr RR) Bytes() []byte {
+	s := cryptobyte.NewBuilder(nil)
+	addName(s, rr.Name)
 	s.AddUint16(rr.Type)
 	s.AddUint16(rr.Class)
 	s.AddUint32(rr.TTL)
@@ -328,14 +335,7 @@ func (rr RR) Bytes() []byte {
 			s.AddBytes([]byte(data))
 		case string:
 			if rr.Type == 2 || rr.Type == 5 || rr.Type == 12 { // NS, CNAME, PTR
-				if data != "" {
-					for _, p := range strings.Split(data, ".") {
-						s.AddUint8LengthPrefixed(func(s *cryptobyte.Builder) {
-							s.AddBytes([]byte(p))
-						})
-					}
-				}
-				s.AddUint8(0)
+				addName(s, data)
 			}
 		case []Option:
 			for _, opt := range data {
@@ -346,14 +346,7 @@ func (rr RR) Bytes() []byte {
 			}
 		case HTTPS:
 			s.AddUint16(data.Priority)
-			if len(data.Target) > 0 {
-				for _, p := range strings.Split(data.Target, ".") {
-					s.AddUint8LengthPrefixed(func(s *cryptobyte.Builder) {
-						s.AddBytes([]byte(p))
-					})
-				}
-			}
-			s.AddUint8(0)
+			addName(s, data.Target)
 			if len(data.ALPN) > 0 {
 				s.AddUint16(1)
 				s.AddUint16LengthPrefixed(func(s *cryptobyte.Builder) {
